@@ -27,6 +27,9 @@ type recAdapter struct {
 	ids   []string
 	calls [][]interface{} // [kind, amt, playerID, ms since delivery]
 	t0    time.Time
+	// judge, when set, plays the table: a call it refuses gets the error back and is not listed among the calls
+	judge   func(kind string, amt int64, pid string) error
+	refused int
 }
 
 func (r *recAdapter) SetActor(a actor.Actor) { r.act = a }
@@ -43,6 +46,14 @@ func (r *recAdapter) GetGamePlayerIndex(playerID string) int {
 }
 func (r *recAdapter) GetGameState() *pokerface.GameState { return r.gs }
 func (r *recAdapter) rec(kind string, amt int64, pid string) error {
+	if r.judge != nil {
+		if err := r.judge(kind, amt, pid); err != nil {
+			r.mu.Lock()
+			r.refused++
+			r.mu.Unlock()
+			return err
+		}
+	}
 	r.mu.Lock()
 	r.calls = append(r.calls, []interface{}{kind, amt, pid, time.Since(r.t0).Milliseconds()})
 	r.mu.Unlock()
@@ -380,7 +391,7 @@ func cmdActors(args []string) int {
 				emit(actorLine{Ev: "autoplay", Hand: hand, Me: me, MyID: ids[me], Calls: calls, Res: res, Status: mode, AT: 0})
 			}
 			if len(timedCases) < *timed && (si%7 == 0) {
-				for _, mode := range []string{"running", "suspended", "idle"} {
+				for _, mode := range []string{"running", "suspended", "idle", "running-th0"} {
 					ad := &recAdapter{ids: ids, t0: time.Now()}
 					a := actor.NewActor()
 					a.SetAdapter(ad)
@@ -390,6 +401,10 @@ func cmdActors(args []string) int {
 						pr.Suspend()
 					} else if mode == "idle" {
 						pr.Idle()
+					} else if mode == "running-th0" {
+						// a player who has never been idle is not suspended, whatever the suspension threshold is set to
+						pr.SetSuspendThreshold(0)
+						mode = "running"
 					}
 					gsk := cloneGS(shown)
 					ad.gs = gsk
@@ -452,6 +467,76 @@ func cmdActors(args []string) int {
 		h.Gid, h.Upd = 0, 0
 		reasks = append(reasks, reask{ad: ad, hand: h, at: at})
 	}
+	// ---- the same, but the second request comes only after the first one's thinking time has run out (the player answered
+	// the first himself; the table refuses whatever the expired countdown sends while it is the opponent's turn): the
+	// automatic answer to the second request must still wait for ITS thinking time
+	lateDone := make(chan *reask, 1)
+	go func() {
+		opts := pokerface.NewStardardGameOptions()
+		opts.Deck = pokerface.NewStandardDeckCards()
+		opts.Blind = pokerface.BlindSetting{SB: 1, BB: 2}
+		opts.Players = []*pokerface.PlayerSetting{{Bankroll: 40, Positions: []string{"dealer", "sb"}}, {Bankroll: 40, Positions: []string{"bb"}}}
+		g, err := be.CreateGame(opts)
+		if err != nil {
+			lateDone <- nil
+			return
+		}
+		g, _ = be.ReadyForAll(g)
+		g, _ = be.PayBlinds(g)
+		g, _ = be.ReadyForAll(g)
+		if g == nil || g.Status.CurrentEvent != "RoundStarted" || g.Status.CurrentPlayer != 0 {
+			lateDone <- nil
+			return
+		}
+		s1 := cloneGS(g)
+		s1.UpdatedAt = 7000
+		g2, err := be.Call(cloneGS(g))
+		if err != nil {
+			lateDone <- nil
+			return
+		}
+		g3, err := be.Raise(cloneGS(g2), 6)
+		if err != nil || g3.Status.CurrentPlayer != 0 {
+			lateDone <- nil
+			return
+		}
+		s2 := cloneGS(g3)
+		s2.UpdatedAt = 8000
+		ids := []string{"b0", "b1"}
+		ad := &recAdapter{ids: ids, t0: time.Now()}
+		var tmu sync.Mutex
+		tableState := s1 // what the table would judge a call against
+		ad.judge = func(kind string, amt int64, pid string) error {
+			tmu.Lock()
+			defer tmu.Unlock()
+			if r := applyCall(be, cloneGS(tableState), 0, []interface{}{kind, amt}); r != "ok" {
+				return fmt.Errorf("refused: %s", r)
+			}
+			if kind == "call" {
+				tableState = g2 // the player's own call: now it is the opponent's turn
+			}
+			return nil
+		}
+		a := actor.NewActor()
+		a.SetAdapter(ad)
+		pr := actor.NewPlayerRunner("b0")
+		a.SetRunner(pr)
+		ad.gs = s1
+		a.UpdateTableState(tableFor(s1, ids, 1))
+		time.Sleep(300 * time.Millisecond)
+		pr.Call()
+		time.Sleep(950 * time.Millisecond) // the first request's thinking time (1 s) has run out meanwhile
+		tmu.Lock()
+		tableState = s2
+		tmu.Unlock()
+		at := time.Since(ad.t0).Milliseconds()
+		ad.gs = s2
+		a.UpdateTableState(tableFor(s2, ids, 1))
+		h := rec.projectHand(s2)
+		h.Gid, h.Upd = 0, 0
+		time.Sleep(1400 * time.Millisecond)
+		lateDone <- &reask{ad: ad, hand: h, at: at}
+	}()
 	// the action time of the timed cases is one second
 	time.Sleep(650 * time.Millisecond)
 	early := make([][][]interface{}, len(timedCases))
@@ -472,6 +557,9 @@ func cmdActors(args []string) int {
 	time.Sleep(300 * time.Millisecond)
 	for _, ra := range reasks {
 		emit(actorLine{Ev: "autoplay2", Hand: ra.hand, Me: 0, MyID: "b0", Calls: ra.ad.snapshot(), Res: "none", Status: "running", AT: 1, Reask: ra.at})
+	}
+	if ra := <-lateDone; ra != nil {
+		emit(actorLine{Ev: "autoplay2", Hand: ra.hand, Me: 0, MyID: "b0", Calls: ra.ad.snapshot(), Res: "none", Status: "running", AT: 1, Reask: ra.at, Note: "late"})
 	}
 	w.Flush()
 	f.Close()
